@@ -141,6 +141,7 @@ func safeVerify(pub *wire.Pub, m []byte, sig *wire.Sig) (ok bool) {
 }
 
 type built struct {
+	clockNil    bool // CertChecker.Clock left nil: time.Now is used
 	blob, canon []byte
 	spec        *wire.CertSpec
 	nc, sigover string
@@ -173,6 +174,11 @@ func buildCert(r *hx.Rand, g *hx.Gen, tc timeCase) built {
 	}
 	g.Stat("key." + kind)
 	g.Stat("ca." + caKind)
+	g.Stat("pair.key-" + kind + "+ca-" + caKind)
+	cov.Hit("subjectKeyKind", kind)
+	cov.Hit("caKeyKind", caKind)
+	cov.Hit("certKeyAlgoNames", wire.CertTypeName(spec.Key.TypeName()))
+	cov.Hit("certType", strconv.FormatUint(uint64(spec.CertType), 10))
 	canon := spec.SignedPart()
 	b := built{canon: canon, spec: spec, nc: "-"}
 	// non-canonical encodings that parse to the same certificate
@@ -244,6 +250,7 @@ func buildCert(r *hx.Rand, g *hx.Gen, tc timeCase) built {
 		f := ""
 		if caKind == "rsa" {
 			f = hx.Pick(r, []string{"ssh-rsa", "rsa-sha2-256", "rsa-sha2-512"})
+			cov.Hit("rsaCASigFormat", f)
 		}
 		sig = spec.CA.Sign(f, msg, flags, uint32(r.Intn(3)))
 	}
@@ -353,6 +360,14 @@ func emitCheck(g *hx.Gen, r *hx.Rand, b built, blob []byte, tc timeCase) {
 		}
 	}
 	g.Stat("mode." + mode)
+	cov.Hit("checkMode", mode)
+	g.Stat("pair.mode-" + mode + "+nc-" + b.nc)
+	g.Stat("pair.mode-" + mode + "+sig-" + b.sigover)
+	g.Stat("pair.mode-" + mode + "+rev-" + map[bool]string{true: "nil", false: "set"}[rev == "nil"])
+	if b.clockNil {
+		extra += " clock=nil"
+		g.Stat("pair.mode-" + mode + "+clock-nil")
+	}
 	g.Emit("check mode=%s nc=%s sigover=%s cert=%s %s princ=%s now=%d supp=%s rev=%s%s",
 		mode, b.nc, b.sigover, hx.Hex(blob), oracleFields(blob, b.canon), hx.Hex([]byte(princ)), tc.now, hexStrs(supp), rev, extra)
 }
@@ -405,6 +420,8 @@ func emitSign(g *hx.Gen, r *hx.Rand) {
 	}
 	g.Stat("sign." + signer)
 	g.Stat("sign.ca." + caKind)
+	g.Stat("pair.signer-" + signer + "+ca-" + caKind)
+	cov.Hit("signCertAuthority", signer)
 	kb := key.Blob(wire.BodyOpt{})
 	g.Emit("sign kind=%s kseed=%s cakind=%s cseed=%s signer=%s key=%s ca=%s pts=%s catype=%s algs=%s algsigner=%d nonce=%s serial=%d ctype=%d keyid=%s princs=%s va=%d vb=%d crit=%s ext=%s reserved=%s",
 		kind, hx.Hex(kseed), caKind, hx.Hex(cseed), signer, hx.Hex(kb), hx.Hex(ca.Blob(wire.BodyOpt{})), ptsField(wire.Cat(kb, ca.Blob(wire.BodyOpt{}))),
@@ -423,14 +440,38 @@ func ptsField(b []byte) string {
 	return strings.Join(pts, ",")
 }
 
+var cov = wire.NewCover()
+
+func declareTables() {
+	cov.Declare("subjectKeyKind", wire.Kinds...)
+	cov.Declare("caKeyKind", "ed25519", "ecdsa256", "ecdsa384", "ecdsa521", "rsa", "dsa", "sk-ed25519", "sk-ecdsa")
+	cov.Declare("certKeyAlgoNames", "ssh-rsa-cert-v01@openssh.com", "rsa-sha2-256-cert-v01@openssh.com", "rsa-sha2-512-cert-v01@openssh.com",
+		"ssh-dss-cert-v01@openssh.com", "ecdsa-sha2-nistp256-cert-v01@openssh.com", "ecdsa-sha2-nistp384-cert-v01@openssh.com",
+		"ecdsa-sha2-nistp521-cert-v01@openssh.com", "sk-ecdsa-sha2-nistp256-cert-v01@openssh.com", "ssh-ed25519-cert-v01@openssh.com",
+		"sk-ssh-ed25519-cert-v01@openssh.com")
+	cov.Declare("checkMode", "cert", "auth", "host")
+	cov.Declare("rsaCASigFormat", "ssh-rsa", "rsa-sha2-256", "rsa-sha2-512")
+	cov.Declare("signCertAuthority", "full", "signonly", "algonly", "algs", "algs-empty", "cert")
+	cov.Declare("certType", "0", "1", "2", "3", "2147483648", "4294967295")
+}
+
 func gen(g *hx.Gen) {
+	declareTables()
+	defer cov.Report(g.StatN)
 	n := g.Count(3000, 60000)
 	r := g.R
 	for i := 0; i < n; i++ {
 		tc := pickTimes(r, g)
 		switch k := r.Intn(20); {
 		case k < 13: // well-formed certificate, decision ops
+			clockNil := r.Chance(1, 12)
+			if clockNil { // zero-value Clock: windows ten years away from the real time, so the answer is stable
+				nowv := uint64(time.Now().Unix())
+				tc = timeCase{int64(nowv), hx.Pick(r, []uint64{0, nowv - 300000000, nowv + 300000000}), hx.Pick(r, []uint64{maxU, nowv + 300000000, nowv - 300000000, 1})}
+				g.Stat("clock-nil")
+			}
 			b := buildCert(r, g, tc)
+			b.clockNil = clockNil
 			emitCheck(g, r, b, b.blob, tc)
 			if r.Chance(1, 4) {
 				g.Emit("parse nc=%s cert=%s %s", b.nc, hx.Hex(b.blob), oracleFields(b.blob))
@@ -465,7 +506,9 @@ func gen(g *hx.Gen) {
 				spec.CABlob = b.blob
 			case 1:
 				g.Stat("ca-name-rsa-sha2-cert")
-				spec.CABlob = wire.Cat(wire.Str([]byte("rsa-sha2-256-cert-v01@openssh.com")), spec.CA.Body(wire.BodyOpt{}))
+				nmx := hx.Pick(r, []string{"rsa-sha2-256-cert-v01@openssh.com", "rsa-sha2-512-cert-v01@openssh.com"})
+				cov.Hit("certKeyAlgoNames", nmx)
+				spec.CABlob = wire.Cat(wire.Str([]byte(nmx)), spec.CA.Body(wire.BodyOpt{}))
 			case 2:
 				g.Stat("outer-name-mismatch")
 				spec.TypeName = hx.Pick(r, []string{"ssh-ed25519-cert-v01@openssh.com", "ssh-rsa-cert-v01@openssh.com", "rsa-sha2-256-cert-v01@openssh.com", "ssh-ed25519", "ecdsa-sha2-nistp384-cert-v01@openssh.com"})
@@ -526,6 +569,9 @@ func execCheck(o hx.Op) string {
 	}
 	now, _ := strconv.ParseInt(o.Str("now"), 10, 64)
 	ck := &ssh.CertChecker{Clock: func() time.Time { return time.Unix(now, 0) }}
+	if o.Str("clock") == "nil" {
+		ck.Clock = nil
+	}
 	for _, s := range hexList(o, "supp") {
 		ck.SupportedCriticalOptions = append(ck.SupportedCriticalOptions, string(s))
 	}
